@@ -331,29 +331,28 @@ theorem render_entries_reject (reserved keys kw : List Name) (e : Entry) (fresh 
              simp at hne
        | proceeds => exact k2)
 
-/-- `<%include args=…>` / `Namespace.include_file`: the model follows the regenerated fact about
-`runtime._include_file` – with the check, a reserved keyword argument is rejected; without it (F-C04-8 on the tree
-before its repair) it is accepted -/
-theorem include_args_follow_code (reserved keys kw : List Name) (fresh : Bool) (x : Name) (hr : x ∈ reserved) (hk : x ∈ kw) :
-    (Generated.Names.includeChecksKwargs = true →
-        ∃ l, renderEntry reserved .includeFile fresh keys kw = .nameConflict l ∧ l ≠ []) ∧
-    (Generated.Names.includeChecksKwargs = false → renderEntry reserved .includeFile fresh keys kw = .proceeds) := by
-  constructor
-  · intro h
-    have hx : x ∈ reserved.filter (fun n => decide (n ∈ kw)) := by simp [List.mem_filter, hr, hk]
-    have hne : reserved.filter (fun n => decide (n ∈ kw)) ≠ [] := fun h0 => by rw [h0] at hx; simp at hx
-    refine ⟨_, ?_, hne⟩
-    have : (reserved.filter (fun n => decide (n ∈ kw))).isEmpty = false := by
-      cases hl : reserved.filter (fun n => decide (n ∈ kw)) with
-      | nil => exact absurd hl hne
-      | cons a l => rfl
-    simp only [renderEntry, h, if_true]
-    show (if (reserved.filter (fun n => decide (n ∈ kw))).isEmpty = true then Outcome.proceeds
-          else Outcome.nameConflict _) = _
-    rw [this]
-    rfl
-  · intro h
-    simp [renderEntry, h]
+/-- `<%include args=…>` / `Namespace.include_file(uri, **kw)`: `runtime._include_file` intersects its keyword
+arguments with the included template's reserved names (regenerated fact, repaired by 4d698dc) – a reserved keyword
+argument is rejected, whatever the state of the context -/
+theorem include_args_reject (reserved keys kw : List Name) (fresh : Bool) (x : Name) (hr : x ∈ reserved) (hk : x ∈ kw) :
+    Generated.Names.includeChecksKwargs = true ∧
+    ∃ l, renderEntry reserved .includeFile fresh keys kw = .nameConflict l ∧ l ≠ [] := by
+  have h : Generated.Names.includeChecksKwargs = true := by decide
+  refine ⟨h, ?_⟩
+  have hx : x ∈ reserved.filter (fun n => decide (n ∈ kw)) := by simp [List.mem_filter, hr, hk]
+  have hne : reserved.filter (fun n => decide (n ∈ kw)) ≠ [] := fun h0 => by rw [h0] at hx; simp at hx
+  refine ⟨_, ?_, hne⟩
+  have : (reserved.filter (fun n => decide (n ∈ kw))).isEmpty = false := by
+    cases hl : reserved.filter (fun n => decide (n ∈ kw)) with
+    | nil => exact absurd hl hne
+    | cons a l => rfl
+  simp only [renderEntry, h, if_true]
+  show (if (reserved.filter (fun n => decide (n ∈ kw))).isEmpty = true then Outcome.proceeds
+        else Outcome.nameConflict _) = _
+  rw [this]
+  rfl
+
+example : renderEntry ({} : Cfg).reserved .includeFile false [] [loopName] = .nameConflict [loopName] := by decide
 
 example : renderEntry ({} : Cfg).reserved .renderContext true [] [loopName] = .nameConflict [loopName] ∧
     renderEntry ({} : Cfg).reserved .renderContext false [] [loopName] = .nameConflict [loopName] ∧
